@@ -102,6 +102,11 @@ func (t *template) RenderReader(ctx context.Context, w io.Writer, r io.Reader) e
 		Processors: t.vue.nodeProcessors,
 	})
 
+	// Assign unique IDs to all v-once elements for tracking across deep clones
+	for _, node := range dom {
+		assignSeenAttrs(&vueCtx, node)
+	}
+
 	// Buffer the output to ensure w is unmodified on error
 	buf := &bytes.Buffer{}
 	if err := t.vue.renderNodesWithContext(vueCtx, buf, dom); err != nil {
